@@ -10,3 +10,7 @@ import VibeProof.Props.C25
 #print axioms VibeProof.C25.C25_sig_examples
 #print axioms VibeProof.C25.C25_old_normalizer_conflates
 #print axioms VibeProof.C25.C25_extract_examples
+#print axioms VibeProof.C25.C25_regions_are_scanned
+#print axioms VibeProof.C25.C25_normal_form_preserves_regions
+#print axioms VibeProof.C25.C25_equal_keys_equal_regions
+#print axioms VibeProof.C25.C25_foreign_quote_examples
